@@ -272,6 +272,12 @@ class Kernel:
             env[os.fsdecode(k)] = os.fsdecode(v)
         task = self._task_of(env)
         outcome = self.outcomes.get(task, {})
+        if any(b"\x00" in (a if isinstance(a, bytes) else os.fsencode(a)) for a in argv):
+            # what the real _posixsubprocess.fork_exec does for such an argument
+            self.log("launchfail", task=task, errno=0, argv=[os.fsdecode(a) for a in argv],
+                     cwd=os.fsdecode(cwd) if cwd is not None else None,
+                     env={k: v for k, v in env.items() if k.startswith("COND_")}, nul=True)
+            raise ValueError("embedded null byte")
 
         entry = self._tape_next()
         mode = entry & 1
